@@ -4,8 +4,11 @@ SEED=$1; PID=$2; TIER=${3:-quick}
 cd /repo || exit 2
 git diff --quiet || { echo "/repo is not clean"; exit 2; }
 git apply "$SEED/patch.diff" || exit 2
+# the run below rewrites evidence/$PID.json from the seeded tree: keep the one of the unchanged tree
+cp /verif/evidence/$PID.json /verif/work/evidence-keep-$PID.json 2>/dev/null
 cd /verif && python3 tools/vcheck.py $PID $TIER > work/seedrun-$(basename $SEED)-$PID.log 2>&1
 RC=$?
 git -C /repo checkout -- .
+cp /verif/work/evidence-keep-$PID.json /verif/evidence/$PID.json 2>/dev/null
 echo "$(basename $SEED) $PID $TIER rc=$RC $(grep -c '^VIOLATION' work/seedrun-$(basename $SEED)-$PID.log) violations"
 grep -A1 '^VIOLATION' work/seedrun-$(basename $SEED)-$PID.log | grep -v '^VIOLATION\|^--' | head -3 | cut -c1-250
